@@ -20,7 +20,11 @@ pub struct Wiring { pub stdin_in: bool, pub stdout_out: bool, pub env_keyring: b
 #[derive(Clone, Copy, Debug, Serialize, Deserialize, PartialEq)]
 pub enum Sink { Healthy, DevFull, ClosedPipe }
 #[derive(Clone, Debug, Serialize, Deserialize)]
-pub struct Case { pub req: Req, pub plain: Plain, pub chunks: Vec<usize>, pub pos: SenderPos, pub wirings: Vec<Wiring>, pub sink: Sink, pub sel: u64 }
+pub struct Case { pub req: Req, pub plain: Plain, pub chunks: Vec<usize>, pub pos: SenderPos, pub wirings: Vec<Wiring>, pub sink: Sink, pub sel: u64,
+    /// a file already at the -o path, this many bytes longer than what the run will write (None = path absent)
+    #[serde(default)] pub prior_out: Option<u16>,
+    /// with -k given, KESTREL_KEYRING is additionally set to a decoy (1 = missing path, 2 = another valid keyring)
+    #[serde(default)] pub env_decoy: u8 }
 
 pub fn wiring_from(i: usize) -> Wiring { Wiring { stdin_in: i & 1 != 0, stdout_out: i & 2 != 0, env_keyring: i & 4 != 0, short_opts: i & 8 != 0, alias: i & 16 != 0, opts_first: i & 32 != 0 } }
 const PW: &str = "c12 file password";
@@ -91,6 +95,10 @@ pub fn check(c: &Case) -> CheckResult {
     for w in &c.wirings {
         let sb = Sandbox::new();
         sb.write("in.bin", &input); sb.write("keys.txt", kr.as_bytes());
+        sb.write("decoy.txt", cli::keyring_text(&[(&id.carol, false), (&dave, false)]).as_bytes());
+        // a longer file already at the output path: a completed run must leave exactly its own output there
+        let prior: Option<Vec<u8>> = c.prior_out.map(|extra| gen::bytes_from(c.sel ^ 0x0DD, expect_data.as_ref().map(|d| d.len()).unwrap_or(input.len() + 200) + 1 + extra as usize));
+        if let Some(pr) = &prior { sb.write("out.bin", pr); }
         let mut a: Vec<String> = Vec::new();
         match c.req { Req::KeyEnc => a.push(if w.alias { "enc" } else { "encrypt" }.into()), Req::KeyDec(_) => a.push(if w.alias { "dec" } else { "decrypt" }.into()),
             Req::PassEnc => { a.push(if w.alias { "pass" } else { "password" }.into()); a.push(if w.alias { "enc" } else { "encrypt" }.into()); }
@@ -111,12 +119,16 @@ pub fn check(c: &Case) -> CheckResult {
         let pw = match c.req { Req::KeyEnc => id.alice.password.clone(), Req::KeyDec(_) => id.bob.password.clone(), Req::PassDecWrongPw => format!("{}!", PW), _ => PW.to_string() };
         cmd.env.push(("KESTREL_PASSWORD".into(), pw));
         if is_key && w.env_keyring { cmd.env.push(("KESTREL_KEYRING".into(), sb.path("keys.txt").to_string_lossy().into_owned())); }
+        // -k names the keyring; an unrelated KESTREL_KEYRING in the environment must not matter (USAGE: the variable is the fallback)
+        if is_key && !w.env_keyring && c.env_decoy > 0 { cmd.env.push(("KESTREL_KEYRING".into(), if c.env_decoy == 1 { "no-such-keyring.txt".into() } else { sb.path("decoy.txt").to_string_lossy().into_owned() })); }
         if w.stdin_in { cmd.stdin = In::File(sb.path("in.bin")); }
         cmd.stdout = match c.sink { Sink::DevFull => Out::DevFull, Sink::ClosedPipe => Out::ClosedPipe, Sink::Healthy => Out::Capture };
         let r = cmd.run();
         ensure!(r.signal.is_none() && !r.timed_out && matches!(r.code, Some(0) | Some(1)), "[{:?}] abnormal end: {}", w, r.describe());
         if r.code == Some(1) { ensure!(r.stderr_s().lines().any(|l| l.starts_with("Error:")), "[{:?}] exit 1 without an Error: line: {:?}", w, r.stderr_s()); }
-        let data = if sink_special { None } else if to_stdout { Some(r.stdout.clone()) } else { sb.read("out.bin") };
+        let mut data = if sink_special { None } else if to_stdout { Some(r.stdout.clone()) } else { sb.read("out.bin") };
+        // an untouched pre-existing file means the run delivered nothing
+        if !to_stdout && prior.is_some() && data == prior { data = None; }
         if !to_stdout { ensure!(r.stdout.is_empty(), "[{:?}] data on stdout although -o was given", w); }
         let err = r.stderr_s();
         let sender_line = err.lines().find(|l| l.starts_with("Success. File from:") || l.starts_with("Unknown key:")).map(|s| s.to_string());
@@ -171,22 +183,24 @@ pub fn strat() -> impl Strategy<Value = Case> {
     let req = prop_oneof![3 => Just(Req::KeyEnc), 6 => kind_strategy().prop_map(Req::KeyDec), 1 => Just(Req::PassEnc), 2 => kind_strategy().prop_map(Req::PassDec), 1 => Just(Req::PassDecWrongPw)];
     let plain = prop_oneof![1 => any::<u64>().prop_map(|seed| Plain { len: 0, seed }), 6 => gen::small_plain(300), 1 => gen::plain_strategy(200_000)];
     (req, plain, proptest::collection::vec(1usize..60, 0..5), prop_oneof![Just(SenderPos::First), Just(SenderPos::Last), Just(SenderPos::Absent), Just(SenderPos::OnlyWithRecipient), Just(SenderPos::AbsentCaseVariantPresent)], proptest::collection::vec((0usize..64).prop_map(wiring_from), 2..4), prop_oneof![8 => Just(Sink::Healthy), 1 => Just(Sink::DevFull), 1 => Just(Sink::ClosedPipe)], any::<u64>())
-        .prop_map(|(req, plain, chunks, pos, mut wirings, sink, sel)| { wirings.insert(0, wiring_from(0)); Case { req, plain, chunks, pos, wirings, sink, sel } })
+        .prop_flat_map(|(req, plain, chunks, pos, wirings, sink, sel)| (Just((req, plain, chunks, pos, wirings, sink, sel)), proptest::option::weighted(0.35, any::<u16>()), prop_oneof![3 => Just(0u8), 1 => Just(1u8), 1 => Just(2u8)]))
+        .prop_map(|((req, plain, chunks, pos, mut wirings, sink, sel), prior_out, env_decoy)| { wirings.insert(0, wiring_from(0)); Case { req, plain, chunks, pos, wirings, sink, sel, prior_out: prior_out.map(|x| x % 3000), env_decoy } })
 }
 
 pub fn run(ctx: &Ctx) {
-    set_rule("C12", "logical request (encrypt, decrypt, password encrypt, password decrypt; for decryption an authentic file or one damaged in the first chunk / a later chunk / truncated / extended / for another recipient / of the other mode / garbage; wrong password) x keyring composition (sender entry first / last / absent among 2..4 entries) x wiring {file argument | stdin} x {-o | stdout} x {-k | KESTREL_KEYRING} x {long | short options} x {command | alias} x option order, plus /dev/full and closed-pipe sinks. Every case runs the canonical wiring and 2-3 generated ones; SSE: all 64 wirings for one request of each kind. Oracles: exit 0 <=> the request completes by construction, exit 1 has an Error: line; on success the delivered bytes are the plaintext (for encryption: the in-process decryptor returns the plaintext and the --from key); the sender line names the matching entry or reports the key as unknown with its encoding; all wirings of a request agree. Non-trivial = failing request, or stdin/stdout/env wiring, or sender not first; distinct by hash of the case");
+    set_rule("C12", "logical request (encrypt, decrypt, password encrypt, password decrypt; for decryption an authentic file or one damaged in the first chunk / a later chunk / truncated / extended / for another recipient / of the other mode / garbage; wrong password) x keyring composition (sender entry first / last / absent among 2..4 entries) x wiring {file argument | stdin} x {-o | stdout} x {-k | KESTREL_KEYRING} x {long | short options} x {command | alias} x option order, plus /dev/full and closed-pipe sinks, a longer file already present at the -o path, and an unrelated KESTREL_KEYRING set while -k is given. Every case runs the canonical wiring and 2-3 generated ones; SSE: all 64 wirings for one request of each kind. Oracles: exit 0 <=> the request completes by construction, exit 1 has an Error: line; on success the delivered bytes are the plaintext (for encryption: the in-process decryptor returns the plaintext and the --from key); the sender line names the matching entry or reports the key as unknown with its encoding; all wirings of a request agree. Non-trivial = failing request, or stdin/stdout/env wiring, or sender not first; distinct by hash of the case");
     ctx.assume("Linux, no terminal; passwords via --env-pass");
     ctx.shrink_iters.store(30, std::sync::atomic::Ordering::Relaxed);
     let _ = ids();
     let all: Vec<Wiring> = (0..64).map(wiring_from).collect();
     let mut sse = Vec::new();
     for (i, req) in [Req::KeyEnc, Req::KeyDec(FileKind::Authentic), Req::KeyDec(FileKind::CorruptLater), Req::PassEnc, Req::PassDec(FileKind::Authentic)].into_iter().enumerate() {
-        for chunk in all.chunks(8) { sse.push(Case { req, plain: Plain { len: 23, seed: ctx.seed + i as u64 }, chunks: vec![5, 6, 7], pos: SenderPos::Last, wirings: std::iter::once(wiring_from(0)).chain(chunk.iter().cloned()).collect(), sink: Sink::Healthy, sel: ctx.seed }); }
+        for chunk in all.chunks(8) { sse.push(Case { req, plain: Plain { len: 23, seed: ctx.seed + i as u64 }, chunks: vec![5, 6, 7], pos: SenderPos::Last, wirings: std::iter::once(wiring_from(0)).chain(chunk.iter().cloned()).collect(), sink: Sink::Healthy, sel: ctx.seed, prior_out: None, env_decoy: 0 }); }
     }
     // the empty plaintext and the look-alike keyring entry, deterministically
-    for req in [Req::KeyDec(FileKind::Authentic), Req::PassDec(FileKind::Authentic), Req::KeyEnc, Req::PassEnc] { sse.push(Case { req, plain: Plain { len: 0, seed: 1 }, chunks: vec![], pos: SenderPos::First, wirings: vec![wiring_from(0), wiring_from(2), wiring_from(3)], sink: Sink::Healthy, sel: 5 }); }
-    sse.push(Case { req: Req::KeyDec(FileKind::Authentic), plain: Plain { len: 40, seed: 2 }, chunks: vec![9], pos: SenderPos::AbsentCaseVariantPresent, wirings: vec![wiring_from(0), wiring_from(6)], sink: Sink::Healthy, sel: 6 });
+    for req in [Req::KeyDec(FileKind::Authentic), Req::PassDec(FileKind::Authentic), Req::KeyEnc, Req::PassEnc] { sse.push(Case { req, plain: Plain { len: 0, seed: 1 }, chunks: vec![], pos: SenderPos::First, wirings: vec![wiring_from(0), wiring_from(2), wiring_from(3)], sink: Sink::Healthy, sel: 5, prior_out: Some(40), env_decoy: 0 }); }
+    sse.push(Case { req: Req::KeyDec(FileKind::Authentic), plain: Plain { len: 40, seed: 2 }, chunks: vec![9], pos: SenderPos::AbsentCaseVariantPresent, wirings: vec![wiring_from(0), wiring_from(6)], sink: Sink::Healthy, sel: 6, prior_out: None, env_decoy: 2 });
+    for (i, req) in [Req::KeyDec(FileKind::Authentic), Req::KeyEnc, Req::PassDec(FileKind::Authentic), Req::PassEnc, Req::KeyDec(FileKind::CorruptLater)].into_iter().enumerate() { sse.push(Case { req, plain: Plain { len: 30, seed: 3 + i as u64 }, chunks: vec![8, 9], pos: SenderPos::Last, wirings: vec![wiring_from(0), wiring_from(2), wiring_from(8)], sink: Sink::Healthy, sel: 7, prior_out: Some(500), env_decoy: 1 + (i as u8 % 2) }); }
     ctx.sse_vec("all_wirings", "5 requests x all 64 wiring combinations (8 per case, each compared with the canonical wiring)", sse, check);
     ctx.pbt("requests_x_wirings", ctx.n(320, 8_000), strat, check);
 }
